@@ -533,6 +533,9 @@ class FSM(object):
         """Internal method that close the connection if a valid BGP protocol
         instance exists.
         """
+        if self.bgp_peering:
+            # a pending connection attempt is dropped as well
+            self.bgp_peering.stop_connecting()
         if self.protocol is not None:
             self.protocol.closeConnection()
             self.connect_retry_counter = 0
